@@ -340,7 +340,7 @@ fn only_finish_differs(a: &[Event], b: &[Event]) -> bool {
 /// `rg --mmap f`, `rg --no-mmap f` and `cat f | rg` print the same bytes.
 fn check_cli(case: &Case) -> Option<Fail> {
     let Mat::Re { pat } = &case.mat else { return None };
-    let dir = TempDir::new("c02");
+    let dir = TempDir::fast("c02");
     dir.write("f", &case.input.0);
     let base = |extra: &[&str]| {
         let mut rg = Rg::new(&dir.path).args(["--no-config", "--color", "never", "-a", "-n", "-b", "--no-heading", "--no-filename"]);
@@ -398,7 +398,7 @@ pub fn run(pc: &PropCtx) {
         "generated (matcher that cannot match the terminator, searcher configuration with binary detection off, input up to ~150 KB); the event stream and final byte count of search_slice are compared with search_reader under several read-size schedules and hook-set initial capacities (including 1 byte), with the smallest sufficient heap limit and limit+1, with search_path with and without mmap, all again with multi_line(true) requested; the slice run itself is checked against the LineModel; 1/40 of the cases also compare rg --mmap / --no-mmap / stdin. Non-trivial = some reader refilled its buffer at least twice, at least one match, and context or passthru active; distinct by hash",
     );
     pc.assume("Interrupted reads are not injected here (C16 states they surface as errors in the line-by-line reader)");
-    let cases = pc.tier.pick(25_000, 400_000);
+    let cases = pc.tier.pick(60_000, 600_000);
     pc.run_tape("strategies", cases, (256, 6000), gen_case, check);
     pc.require_class("strategies:reader_refilled>=2", cases as u64 / 4);
 }
